@@ -46,7 +46,7 @@ Lemma src_tx_to_bytes_eq : forall hs v i o w l sw,
   src_tx_to_bytes hs v i o w l =
   of_option (tx_to_bytes {| tx_version := v; tx_inputs := i; tx_outputs := o; tx_locktime := l; tx_segwit := sw; tx_witnesses := w |} hs).
 Proof.
-  intros. unfold src_tx_to_bytes, tx_to_bytes, obind.
+  intros. unfold src_tx_to_bytes. not_fallback (@tx_to_bytes). unfold tx_to_bytes, obind.
   cbn [tx_version tx_inputs tx_outputs tx_locktime tx_segwit tx_witnesses]. cbv zeta.
   destruct hs;
     repeat (autorewrite with tie; unfold of_option; reuse_eqns; cbv beta iota zeta; first [ loop_step | pipe_step ]);
